@@ -262,7 +262,8 @@ Definition chunk_build (c : Z) (out el : name) (x : name) (lo hi : expr) (t : Z)
 Definition chunk_ok (c : Z) (s : stmt) : bool :=
   match s with
   | SDo x lo hi (ELit t) body =>
-      (0 <? c) && negb (Z.abs t >? Z.abs c) && negb (t =? 0) && negb (has_cb body) &&
+      (0 <? c) && negb (Z.abs t >? Z.abs c) && negb (t =? 0) && (c mod Z.abs t =? 0) && negb (has_cb body) &&
+      negb (mem x (anames_e lo ++ anames_e hi)) &&
       negb (existsb (fun nm => mem nm (wr_names body)) (x :: anames_e lo ++ anames_e hi))
   | _ => false
   end.
